@@ -7,6 +7,7 @@ mkdir -p $OUT
 cp ../coq/model.ml ../coq/model.mli $OUT/
 cp drv_*.ml driver.ml $OUT/
 cd $OUT
-DRV=$(ls drv_*.ml | grep -v drv_util.ml | tr '\n' ' ')
+# drivers in dependency order (a driver may reuse the helpers of another one)
+DRV=$(ocamlfind ocamldep -sort drv_*.ml | tr ' ' '\n' | grep -v '^drv_util.ml$' | tr '\n' ' ')
 ocamlfind ocamlopt -O2 -w -a -package str -linkpkg model.mli model.ml drv_util.ml $DRV driver.ml -o runner 2>/dev/null \
  || ocamlfind ocamlopt -w -a -package str -linkpkg model.mli model.ml drv_util.ml $DRV driver.ml -o runner
